@@ -448,6 +448,52 @@ DEFS = {
                 invariants = instance.__class__.__invariants__
 """),
     ],
+    "mutants/c15_fix_property_guard_reverted": [
+        (META, """                if not isinstance(base_property, property):
+                    # (raised explicitly: the refusal must not depend on the interpreter mode, cf. ``python -O``)
+                    raise AssertionError(
+                        "Expected base {} to have {} as property, but got: {}".format(
+                            base, key, base_property
+                        )
+                    )
+""", """                assert isinstance(
+                    base_property, property
+                ), "Expected base {} to have {} as property, but got: {}".format(
+                    base, key, base_property
+                )
+"""),
+    ],
+    "mutants/c20_fix_reproducible_set_order_reverted": [
+        ("icontract/_globals.py", "aRepr = _ReproducibleRepr()  # pylint: disable=invalid-name\n", "aRepr = reprlib.Repr()  # pylint: disable=invalid-name\n"),
+    ],
+    "seeded/C20_r3_default_maxdeque_not_raised": [
+        ("icontract/_globals.py", """aRepr.maxdict = 50
+aRepr.maxlist = 50
+aRepr.maxtuple = 50
+aRepr.maxset = 50
+aRepr.maxfrozenset = 50
+aRepr.maxdeque = 50
+aRepr.maxarray = 50
+aRepr.maxstring = 256
+aRepr.maxother = 256
+""", """
+# All the containers share the same limit on the number of the represented items ...
+for _container_limit in (
+    "maxdict",
+    "maxlist",
+    "maxtuple",
+    "maxset",
+    "maxfrozenset",
+    "maxdequeue",
+    "maxarray",
+):
+    setattr(aRepr, _container_limit, 50)
+
+# ... and so do the strings and the remaining objects on the number of the represented characters.
+for _text_limit in ("maxstring", "maxother"):
+    setattr(aRepr, _text_limit, 256)
+"""),
+    ],
     "mutants/c14_fix_unreadable_class_attribute_reverted": [
         (CHK, """        try:
             value = getattr(cls, name)
